@@ -154,7 +154,7 @@ fn run_history(alpha: &[Spec], hist: &[usize], mut srv: Box<dyn Server>) -> Hist
 pub fn run(ctx: &mut Ctx) {
     let alpha = alphabet();
     let thorough = ctx.tier.thorough();
-    let max_len = if thorough { 3 } else { 2 };
+    let max_len = if thorough { 4 } else { 3 };
     ctx.rule = "state = (Debug rendering of every Source held by the real server, set of request kinds still unanswered); transition = one client message sent to a fresh real server that replayed the shortest history of the source state, followed by the probe barrier; every history ends with shutdown + exit; distinct = distinct (state, event) pairs and distinct histories".into();
     ctx.bounds.insert("events".into(), json!(alpha.iter().map(|s| s.name).collect::<Vec<_>>()));
     ctx.bounds.insert("sequence_length_without_dedup".into(), json!(max_len));
@@ -241,7 +241,7 @@ pub fn run(ctx: &mut Ctx) {
             replay_hists.push(h.clone());
         }
     }
-    if thorough {
+    {
         for a in 0..alpha.len() {
             for b in 0..alpha.len() {
                 replay_hists.push(vec![a, b]);
